@@ -30,7 +30,7 @@ TRUSTED = ["guarded hook in CompilerPassGatherCode.run (add-only)", "vf/ic10_vm.
 
 def plan(tier, seed):
     q = tier == "quick"
-    tasks = pool.batches("pressure", 500 if q else 7000, 10) + pool.batches("gen", 450 if q else 7000, 10) + pool.batches("echo", 200 if q else 4000, 10) + pool.batches("tail", 200 if q else 3000, 10) + pool.batches("layout", 200 if q else 3000, 10) + pool.batches("limit", 60 if q else 400, 10) + pool.batches("corpus", len(workload.corpus()), 2)
+    tasks = pool.batches("pressure", 500 if q else 7000, 10) + pool.batches("gen", 450 if q else 7000, 10) + pool.batches("echo", 200 if q else 4000, 10) + pool.batches("tail", 200 if q else 3000, 10) + pool.batches("layout", 200 if q else 3000, 10) + pool.batches("limit", 60 if q else 400, 10) + pool.batches("corpus", len(workload.corpus()), 2) + pool.batches("modules", 150 if q else 2500, 10)
     for hz in ("reuse_for_target", "copy_assign"):
         tasks += pool.batches(f"defect:{hz}", 20 if q else 200, 10)
     return dict(tasks=tasks, nworkers=14, time_cap=85 if q else 880, env_extra={"PYTRAPIC_VERIF": "1"})
@@ -60,6 +60,11 @@ def gen_case(task, i):
         src = gen_shapes.layout_mutation(workload.gen_program(ID, "gen", i + 50000)[0]["src"], r)
     elif st == "corpus":
         src = workload.corpus_case(i)["src"]
+    elif st == "modules":
+        # library modules with register-held globals, functions of other modules and of the main script
+        from . import c13
+
+        src = c13.multi_with_main_function(i, r)
     else:
         src = workload.gen_program(ID, st, i)[0]["src"]
     vs = [dict(append_version=False), dict(append_version=False, inline_functions=False), dict(r.choice(CORNERS), append_version=False, remove_labels=r.random() < 0.5)]
